@@ -1324,8 +1324,11 @@ class RealFloat(numbers.Rational):
 
         # step 6. check if rounding was exact (if so, we're done)
         if lost.is_zero():
-            # just choose one of the rounding modes (RTZ)
-            rand_rm = RoundingMode.RTZ
+            # `xr` lies on the grid: either `self` is representable, or the
+            # extra digits rounded `self` onto one of its two neighbors,
+            # which is then the result for every draw
+            rounded_up = xr.inexact and abs(xr) > abs(self)
+            rand_rm = RoundingMode.RAZ if rounded_up else RoundingMode.RTZ
         else:
             # step 7. normalize `lost` so that `lost.n == n_rand`
             offset = lost._exp - (n_rand + 1)
